@@ -68,7 +68,18 @@ def _one_scanner(job):
         mod = rt.run_model(cfn)
         spec = rt.run_model(cfn, spec=True)
         rout = [l for l in real['out'] if not (l.startswith('tload 0') or l.startswith('tdestroy 0'))] if cfg.tables else real['out']
+        d_buf = None
+        if c.get('logreads') == 2:
+            # buffer level: sizes of the read requests and the tokens, predicted by Runtime/Buf.lean
+            if not cfg.reject_machinery:
+                bm = rt.run_bufmodel(cfn)
+                d_buf = rt.first_diff(rt.buf_view(rout), bm['out'])
+                if d_buf is not None:
+                    d_buf = (d_buf[0], '[read requests and tokens, vs Runtime/Buf.lean] ' + str(d_buf[1]), d_buf[2])
+            rout = [l for l in rout if not l.startswith('rq ')]
         d_model = rt.first_diff(rout, mod['out'])
+        if d_model is None and d_buf is not None:
+            d_model = d_buf
         d_spec = rt.first_diff(rout, spec['out'])
         st = real.get('stats', {})
         ledger = None
@@ -191,6 +202,25 @@ def fam_reads(rng):
         c = inner(rng, rs, cfg)
         c['sched'] = [1]
         c['logreads'] = True
+        return c
+    return rs, cfg, gen
+
+
+def fam_bufreq(rng):
+    """the buffer level: every read request the scanner makes (its size depends on the buffer size, on
+    the length of the partial token moved to the front, on growth by doubling and on YY_READ_BUF_SIZE)
+    is logged and must be the request the Lean buffer machine (Runtime/Buf.lean) makes, token by token"""
+    rs = rules.gen_ruleset(rng, p_trail=0.0)
+    inter = rng.choice([True, False, None])
+    cfg = rt.Config(backend=_backend(rng, cxx=True), topt=_compressed(rng) if inter is not False else rng.choice(TOPTS),
+                    interactive=inter, array=rng.random() < 0.2)
+
+    def gen(rng, rs, cfg):
+        c = _basic_case(rng, rs, cfg)
+        if rng.random() < 0.3:
+            c['srcs'] = [c['srcs'][0] * rng.choice([3, 20, 200])]      # long inputs: growth, YY_READ_BUF_SIZE cap
+            c['bufsize'] = rng.choice([1, 2, 7, 64, 8192, 16384, 20000])
+        c['logreads'] = 2
         return c
     return rs, cfg, gen
 
@@ -419,4 +449,4 @@ def fam_matrix(rng, idx):
 
 
 FAMILIES = {'buffers': fam_buffers, 'include': fam_include, 'plain': fam_plain, 'ops': fam_ops, 'unput': fam_unput, 'reject': fam_reject,
-            'lineno': fam_lineno, 'trail': fam_trail, 'eof': fam_eof, 'deepstack': fam_deepstack, 'reads': fam_reads}
+            'lineno': fam_lineno, 'trail': fam_trail, 'eof': fam_eof, 'deepstack': fam_deepstack, 'reads': fam_reads, 'bufreq': fam_bufreq}
